@@ -893,6 +893,17 @@ func (env *Env) call(x *SExpr) Value {
 		v := env.eval(args[0])
 		return Value{T: tString, S: []string{"(strfromint " + v.S[0] + ")"}}
 	}
+	// result function of a contract marked "functional"
+	for _, k := range sortedKeys(e.CS.ByKey) {
+		fc := e.CS.ByKey[k]
+		if fc.Functional == name {
+			var vals []Value
+			for _, a := range args {
+				vals = append(vals, env.eval(a))
+			}
+			return intVal(e.functionalTerm(env.st, name, vals, "Int"))
+		}
+	}
 	// pure spec function
 	pf := e.CS.Pure[name]
 	if pf == nil && fnx.Op == "ident" {
